@@ -48,9 +48,9 @@ def validateInputTable (t : Option Frame) : Except PyErr Frame :=
 
 def validateAttr (a : String) (f : Frame) : Except PyErr Unit := raiseIf (!f.hasCol a) .assertion
 
-/-- `attr_type != object` -/
+/-- `attr_type != object and not isinstance(attr_type, pd.StringDtype)` (repaired, F3) -/
 def validateAttrType (a : String) (f : Frame) : Except PyErr Unit :=
-  raiseIf (f.dtype a != "object") .assertion
+  raiseIf (f.dtype a != "object" && f.dtype a != "str") .assertion
 
 def validateTokenizer (t : TokObj) : Except PyErr Unit := raiseIf (!t.isTokenizer) .typeErr
 
